@@ -10,9 +10,13 @@ import Abasic.Tokenizer
     * `skipWs_suffix`, `skipWs_nonblank`: every token starts on a non-blank;
     * `error_after_tokens`: an error position is at or after the end of the
       last token (everything before it tokenized).
+  Continued in C13More.lean: every matcher consumes a non-empty prefix, hence
+  ranges are strictly non-empty and end within the line (`ranges_in_bounds_strict`),
+  tokenization never runs out of fuel (`tokenize_total`), every range is the byte
+  range of a run of whole characters starting — and, except for REM/DATA, ending —
+  on a non-blank (`ranges_exact`).
   Still resting on the correspondence slice and the implementation oracle only
-  (see `open` in tools/props.py): strict non-emptiness and the upper bound of
-  ranges, and re-tokenization of a range to its own token.
+  (see `open` in tools/props.py): re-tokenization of a range to its own token.
 -/
 namespace Abasic.Props.C13
 open Abasic
